@@ -137,6 +137,13 @@ def cmd_run(ids, props):
                               'note': ('proof-lost' if any(l.startswith('PROOF-LOST') for l in lines) else
                                        'bounded-standin' if any(l.startswith('BOUNDED-STANDIN') for l in lines) else '')}
                 print(sid, p, rc, line[:160], flush=True)
+            # a run over a subset of the properties refreshes those entries and keeps the others (each says when it was run)
+            merged = meta.get('checks') if isinstance(meta.get('checks'), dict) and 'error' not in meta.get('checks', {}) else {}
+            head = sh(['git', '-C', ROOT, 'rev-parse', '--short', 'HEAD'])[1].strip()
+            for p_, r_ in results.items():
+                r_['verif_head'] = head
+            merged.update(results)
+            results = merged
             meta['checks'] = results
             meta['checks_run_at'] = {'verif_head': sh(['git', '-C', ROOT, 'rev-parse', '--short', 'HEAD'])[1].strip(),
                                      'cmd': 'VERIF_REPO=<scratch worktree with patch applied> ./check <P> --tier quick'}
